@@ -491,7 +491,9 @@ fn observe_game(g: &Game, ev: &mut Map<String, Value>) {
     ev.insert("can".into(), json!(g.can_declare_draw()));
 }
 
-const GAME_FENS: [&str; 24] = [
+const GAME_FENS: [&str; 26] = [
+    "4r1k1/8/8/4n3/8/8/8/1N2K3 w - - 0 1",
+    "b3k3/8/8/3n4/8/8/6K1/1N6 w - - 0 1",
     "1n2k3/8/8/8/7p/8/P7/4K1N1 w - - 0 1",
     "1n2k3/p7/8/7P/8/8/8/4K1N1 b - - 0 1",
     "4k1n1/8/8/8/p7/8/7P/1N2K3 w - - 0 1",
@@ -596,7 +598,26 @@ fn game_chunk(rng: &mut Rng, events: usize, out: &mut dyn Write, claims: bool) {
         // rook-pawn roots: the double push comes first and stays the last pawn move, so that the position after it
         // (no en-passant capture possible: the only enemy pawn is across the board edge) can recur
         let edge_root = text.contains("/7p/8/P7/") || text.contains("/p7/8/7P/") || text.contains("/8/7p/8/P7/") || text.contains("/p7/8/8/7P/")
-            || GAME_FENS[..4].contains(&text);
+            || GAME_FENS[2..6].contains(&text);
+        if GAME_FENS[..2].contains(&text) && shuffle {
+            // an enemy man stands alone between its own slider and the king of the side to move: knight out, king out, knight
+            // back, king back - twice - brings the START position (a position that was set up, not reached by moves) back
+            let b0 = g.current_position();
+            let us = b0.side_to_move();
+            let n_from = (*b0.pieces(Piece::Knight) & *b0.color_combined(us)).to_square();
+            let k_from = b0.king_square(!us);
+            let n_to = (get_knight_moves(n_from) & !*b0.combined()).next();
+            let k_to = (get_king_moves(k_from) & !*b0.combined()).filter(|s| (get_king_moves(*s) & BitBoard::from_square(b0.king_square(us))) == EMPTY).last();
+            if let (Some(nt), Some(kt)) = (n_to, k_to) {
+                let cyc = [ChessMove::new(n_from, nt, None), ChessMove::new(k_from, kt, None), ChessMove::new(nt, n_from, None), ChessMove::new(kt, k_from, None)];
+                let mut seq = vec![];
+                for _ in 0..2 {
+                    seq.extend_from_slice(&cyc);
+                }
+                seq.reverse();
+                script = seq;
+            }
+        }
         if edge_root && shuffle {
             let b0 = g.current_position();
             let push: Vec<ChessMove> = MoveGen::new_legal(&b0)
@@ -2045,6 +2066,52 @@ fn mine_chunk(rng: &mut Rng, events: usize, out: &mut dyn Write) {
                 sq[f] = en_r;
                 sq[3 * 8 + cf] = own_p;
                 sq[(5 + rng.below(3)) * 8 + f] = own_k;
+            }
+        }
+        // template (one try in eight): the capturing pawn is pinned on the very diagonal it captures along - own king behind
+        // it, the en-passant target square in front of it, an enemy bishop or queen further along: the capture is legal
+        if tries % 8 == 3 {
+            let white_to_move = rng.chance(1, 2);
+            stm = if white_to_move { b'w' } else { b'b' };
+            let (own_k, own_p, en_p, en_b) = if white_to_move { (b'K', b'P', b'p', [b'b', b'q'][rng.below(2)]) } else { (b'k', b'p', b'P', [b'B', b'Q'][rng.below(2)]) };
+            let r: i32 = if white_to_move { 4 } else { 3 };          // rank of the two pawns
+            let dir: i32 = if white_to_move { 1 } else { -1 };
+            let f = rng.below(8) as i32;                              // file of the pushed pawn
+            let cf = if rng.chance(1, 2) { f + 1 } else { f - 1 };   // file of the capturer
+            let (sx, sy) = (f - cf, dir);                              // one step from the capturer to the target square
+            let kk = 1 + rng.below(3) as i32;
+            let jj = 1 + rng.below(3) as i32;
+            let (kx, ky) = (cf - kk * sx, r - kk * sy);
+            let (bx, by) = (f + jj * sx, r + dir + jj * sy);
+            let on = |x: i32, y: i32| x >= 0 && x < 8 && y >= 0 && y < 8;
+            if cf >= 0 && cf < 8 && on(kx, ky) && on(bx, by) {
+                for i in 0..64 {
+                    if sq[i] == own_k {
+                        sq[i] = b'.';
+                    }
+                }
+                // clear the whole diagonal between king and slider, the pushed pawn's two squares behind it
+                let mut x = kx;
+                let mut y = ky;
+                while (x, y) != (bx, by) {
+                    if sq[(y * 8 + x) as usize] != b'K' && sq[(y * 8 + x) as usize] != b'k' {
+                        sq[(y * 8 + x) as usize] = b'.';
+                    }
+                    x += sx;
+                    y += sy;
+                }
+                let free = |i: usize, sq: &[u8; 64]| sq[i] != b'K' && sq[i] != b'k';
+                let pushed = (r * 8 + f) as usize;
+                let b1 = ((r + dir) * 8 + f) as usize;
+                let b2 = ((r + 2 * dir) * 8 + f) as usize;
+                if free(pushed, &sq) && free(b1, &sq) && free(b2, &sq) && free((ky * 8 + kx) as usize, &sq) && free((by * 8 + bx) as usize, &sq) && free((r * 8 + cf) as usize, &sq) {
+                    sq[pushed] = en_p;
+                    sq[b1] = b'.';
+                    sq[b2] = b'.';
+                    sq[(r * 8 + cf) as usize] = own_p;
+                    sq[(ky * 8 + kx) as usize] = own_k;
+                    sq[(by * 8 + bx) as usize] = en_b;
+                }
             }
         }
         // template (one try in sixteen): a just-pushed rook pawn and an enemy pawn on the opposite edge file, same rank or one off
